@@ -28,6 +28,18 @@ from rig.machine_control import MachineController              # noqa: E402
 STRUCT_DATA = pkg_resources.resource_string("rig", "boot/sark.struct")
 
 
+class MachineFaultSim(scpsim.FaultSim):
+    """FaultSim whose machine also executes a request all of whose replies are lost (scpsim's own on_send
+    only runs the responder once per reply, which is enough for C06's echo machine but not for a memory)."""
+
+    def on_send(self, net, tx, data):
+        o = self.plan.get(str(tx), self.default)
+        if not o.get("lost") and not o["replies"]:
+            self.responder(net, tx, data, scpsim.RC_OK)
+            return
+        scpsim.FaultSim.on_send(self, net, tx, data)
+
+
 def get_data(d):
     if isinstance(d, list):
         return sim.pattern_data(d[1], d[2])
@@ -78,7 +90,7 @@ def run_op(mc, op, x, y, buffer, window):
 def run_case(c):
     machine = sim.SimMachine(c["seed"], c.get("over", []), c["buffer"], c.get("dims", [8, 8]))
     plan = c.get("plan") or {}
-    net = scpsim.Net(scpsim.FaultSim(plan, responder=machine.responder, exact=c.get("exact", ()),
+    net = scpsim.Net(MachineFaultSim(plan, responder=machine.responder, exact=c.get("exact", ()),
                                      max_selects=c.get("max_selects", 200000)))
     restore = net.install(scp_connection)
     try:
